@@ -1,6 +1,6 @@
 (* Property C04 — per-session counters (AEAD nonces) are never reused and never
    pass the limits.  Only statements, closed by `exact`, with Print Assumptions. *)
-From WG Require Import Base.Prelude Gen.Constants Nonce.Seq Nonce.Conc Nonce.Spec Nonce.Proofs.
+From WG Require Import Base.Prelude Gen.Constants Nonce.Seq Nonce.Conc Nonce.Spec Nonce.Proofs Nonce.DupResp.
 Local Open Scope N_scope.
 
 (* The numbers of the property text, as the code has them now. *)
@@ -125,6 +125,24 @@ Theorem C04_slice_never_reuses : forall evs : list ev,
   NoDup (map kc (all_tx dinit evs)) /\ Forall (fun t => ctr t < Reject) (all_tx dinit evs).
 Proof. exact slice_never_reuses. Qed.
 Print Assumptions C04_slice_never_reuses.
+
+(* FINDING (unchanged code).  Interleaving model of ConsumeMessageResponse +
+   BeginSymmetricSession for handshake workers holding copies of the SAME valid
+   response (Nonce/DupResp.v; fixed = false: the state is checked under the read
+   lock only).  An explicit schedule of two workers installs two keypairs with
+   the SAME send key and counter 0: nonce reuse. *)
+Theorem C04_duplicate_response_nonce_reuse_refuted : forall (ck : N) (kdf : N -> N),
+  exists sched, sessions (drun false ck kdf dinit2 sched) = [(kdf ck, 0); (kdf ck, 0)].
+Proof. exact duplicate_response_nonce_reuse_refuted. Qed.
+Print Assumptions C04_duplicate_response_nonce_reuse_refuted.
+
+(* The repaired code (state looked at again under the write lock): for every
+   schedule and any number of copies and workers, a response establishes at most
+   one session. *)
+Theorem C04_duplicate_response_at_most_one_session : forall (ck : N) (kdf : N -> N) (sched : list nat),
+  (length (sessions (drun true ck kdf dinit2 sched)) <= 1)%nat.
+Proof. exact duplicate_response_at_most_one_session. Qed.
+Print Assumptions C04_duplicate_response_at_most_one_session.
 
 (* A stress trace accepted by the checker really has the property. *)
 Theorem C04_trace_checker_sound : forall ks, conc_holdsb ks = true ->
